@@ -756,3 +756,47 @@ func firstN(s []string, n int) []string {
 	}
 	return s
 }
+
+// extraSizes: where a rule evaluates a function on inputs of a few small
+// sizes (a bounded unrolling), the sizes must not stay below a constant the
+// function itself compares or computes with - a guard such as i < 64 would
+// otherwise never be seen from its other side. It returns, for every integer
+// constant c of the function's own code with 2 <= c <= 110, the sizes c+1 and
+// c+2 (at most eight values).
+func extraSizes(fn *ssa.Function) []int {
+	seen := map[int]bool{}
+	var out []int
+	for _, b := range fn.Blocks {
+		for _, in := range b.Instrs {
+			var ops []*ssa.Value
+			for _, op := range in.Operands(ops) {
+				if op == nil || *op == nil {
+					continue
+				}
+				c, ok := (*op).(*ssa.Const)
+				if !ok {
+					continue
+				}
+				v := constVal(c)
+				if v.K != KInt || !v.I.IsInt64() {
+					continue
+				}
+				n := v.I.Int64()
+				if n < 2 || n > 110 {
+					continue
+				}
+				for _, s := range []int{int(n) + 1, int(n) + 2} {
+					if !seen[s] {
+						seen[s] = true
+						out = append(out, s)
+					}
+				}
+			}
+		}
+	}
+	sort.Ints(out)
+	if len(out) > 8 {
+		out = out[len(out)-8:]
+	}
+	return out
+}
